@@ -23,10 +23,10 @@ checks_all = {
   technique="deterministic simulation: seeded operation histories with injected refusals against an executable reference model, full-state snapshot failure-atomicity oracle, minimised replay files",
   design="4"),
  "C14": dict(
-  level_text="Four seeded layers: Send+Sync compile probe; long single-thread call histories on long-lived shared interpreters with injected client crashes (panicking Token/Iterator/Replace callbacks) and abandonment, every result compared with a reference table computed in a pristine child process with a fresh interpreter per call; schedule simulation under shuttle (2-4 simulated caller threads, seeded random and PCT-style schedulers owned by the harness, switching at every callback and verif yield point) with the same oracle; fd 1/2 captured for silence. Thorough adds Miri many-seeds (basic-block preemption, data-race detection). Sampling.",
-  note="shuttle switches only at callbacks/yield points (the library has no sync primitives of its own); finer interleavings only in the Miri layer (dozens of seeds). Reference table trusted to be history-free because it is computed in a separate process, fresh interpreter per call, different order.",
-  technique="deterministic simulation: shuttle-controlled thread schedules + seeded call histories with injected client crashes, pristine-process reference oracle, fd capture; Miri many-seeds as second deterministic scheduler",
-  design="7"),
+  level_text="Seeded layers: (a) Send+Sync compile probe; (b) call histories (calls as data over every public entry point and the raw interpreter methods, incl. injected client crashes - panicking Token/Iterator/Replace/BasicAnnotate/LangInterpreter callbacks - and abandoned lazy iterators) on long-lived interpreters, every result compared with a reference table in which each call ran alone in a pristine process; the whole corpus once as one forward history, and once in reverse in another process; (c) schedule simulation: 2-4 real caller threads under the harness's own deterministic scheduler (one runs at a time; PRNG-chosen switches at every caller callback and library yield point; uniform / sticky / PCT policies; explicit trace in the replay file) with the same oracle; (d) Miri as a second deterministic scheduler with basic-block preemption and data-race detection (slice in quick, sweep in thorough); (e) fd 1/2 captured for the whole run. Sampling.",
+  note="The controlled scheduler switches only at callbacks and verif yield points (the library has no synchronisation of its own); interleavings inside a library function are reached by the Miri layer only (about 16 seed-runs in quick, 264 in thorough). The reference table is trusted because each call runs alone in a fresh process with fresh interpreters.",
+  technique="deterministic simulation: harness-owned deterministic scheduler over real threads + seeded call histories with injected client crashes and abandonment, per-call pristine-process reference oracle, fd capture; Miri many-seeds as second deterministic scheduler",
+  design="7 and 12.2"),
  "C15": dict(
   level_text="Seeded simulation of the lazily pulled token stream: the simulator owns the source (EOF at an arbitrary instant, pull log), the tokens (hint flags) and the consumer (demand schedule, cancellation, polling past the end); oracles: lazy == batch, prefix-consistency under cancellation, fused end, pull-count bound (nothing before first request, never beyond the second number after the returned one), separation-hint == comma, nan-hint exclusion. Sampling.",
   note="Hint flags are not placed on whitespace/'-' glue tokens; source is fused; a panic on both lazy and batch sides is counted and skipped (totality is C03, not claimed).",
@@ -81,7 +81,7 @@ m = {
    "add_only": True,
  },
  "engines": [
-   {"name": "t2n-sim", "path": "/verif/sim", "serves_properties": sorted(checks_all), "kind_free_text": "deterministic simulator (Rust): seeded PRNG, simulator-owned token sources/sinks/consumers, fault injection, reference models, shuttle scheduler owned by the harness, minimising replay"},
+   {"name": "t2n-sim", "path": "/verif/sim", "serves_properties": sorted(checks_all), "kind_free_text": "deterministic simulator (Rust): seeded PRNG, simulator-owned token sources/sinks/consumers/interpreter wrappers, fault injection, reference models, own deterministic scheduler over real threads, minimising replay; Miri layer for C14"},
  ],
  "checks": checks,
  "not_applicable": na,
